@@ -4,6 +4,10 @@ PUB = "src/allmydata/mutable/publish.py"
 LAY = "src/allmydata/mutable/layout.py"
 FN = "src/allmydata/mutable/filenode.py"
 SRV = "src/allmydata/storage/server.py"
+SC = "src/allmydata/storage_client.py"
+HS = "src/allmydata/storage/http_server.py"
+HC = "src/allmydata/storage/http_client.py"
+MUT = "src/allmydata/storage/mutable.py"
 
 MUTANTS = [
     # ---- C12.1 non-empty test vectors
@@ -257,6 +261,108 @@ MUTANTS = [
     M("benign-sdmf-empty-checkstring-by-truth", LAY,
       "        if checkstring == b\"\":\n            # An empty checkstring means \"the share must still be empty\".\n",
       "        if not checkstring:\n            # An empty checkstring means \"the share must still be empty\".\n", None),
+    # ---- C12.16 the protocol adapters forward the test vectors as the writer gave them
+    M("http-adapter-size-from-specimen", SC,
+      "                TestVector(offset=offset, size=size, specimen=specimen)\n"
+      "                for (offset, size, specimen) in test_vector\n",
+      "                TestVector(offset=offset, size=len(specimen), specimen=specimen)\n"
+      "                for (offset, _, specimen) in test_vector\n", "C12.16",
+      note="seeded C12-D: (0, 1, b'') reaches the server as (0, 0, b''), which any share satisfies"),
+    M("foolscap-adapter-length-from-data", SC,
+      "                [(start, length, b\"eq\", data) for (start, length, data) in value[0]],\n",
+      "                [(start, len(data), b\"eq\", data) for (start, length, data) in value[0]],\n", "C12.16"),
+    M("http-adapter-skips-empty-specimens", SC,
+      "                for (offset, size, specimen) in test_vector\n            ]\n",
+      "                for (offset, size, specimen) in test_vector\n                if specimen\n            ]\n", "C12.16",
+      note="the 'must not exist' vector is exactly the one with an empty specimen"),
+    M("http-adapter-tests-only-shares-it-writes", SC,
+      "                test_vectors=client_test_vectors,\n",
+      "                test_vectors=client_test_vectors if new_length is None else [],\n", "C12.16"),
+    M("foolscap-adapter-first-vector-only", SC,
+      "for (start, length, data) in value[0]],\n", "for (start, length, data) in value[0][:1]],\n", "C12.16"),
+    M("benign-http-adapter-explicit-loop", SC,
+      "            client_test_vectors = [\n"
+      "                TestVector(offset=offset, size=size, specimen=specimen)\n"
+      "                for (offset, size, specimen) in test_vector\n            ]\n",
+      "            client_test_vectors = []\n            for tv in test_vector:\n"
+      "                client_test_vectors.append(TestVector(tv[0], tv[1], specimen=tv[2]))\n", None),
+    M("benign-foolscap-adapter-loop-over-keys", SC,
+      "            key: (\n                [(start, length, b\"eq\", data) for (start, length, data) in value[0]],\n"
+      "                value[1],\n                value[2],\n            ) for (key, value) in tw_vectors.items()\n",
+      "            shnum: (\n                [(tv[0], tv[1], b\"eq\", tv[2]) for tv in tw_vectors[shnum][0]],\n"
+      "                tw_vectors[shnum][1],\n                tw_vectors[shnum][2],\n            ) for shnum in tw_vectors\n", None),
+    M("benign-http-adapter-vectors-by-statement-loop", SC,
+      "        for share_num, (test_vector, data_vector, new_length) in tw_vectors.items():\n",
+      "        for share_num, per_share in sorted(tw_vectors.items()):\n"
+      "            test_vector, data_vector, new_length = per_share\n", None),
+    M("benign-http-adapter-conversion-in-helper", SC,
+      "            client_test_vectors = [\n"
+      "                TestVector(offset=offset, size=size, specimen=specimen)\n"
+      "                for (offset, size, specimen) in test_vector\n            ]\n",
+      "            client_test_vectors = _client_test_vectors(test_vector)\n", None,
+      edits=[(SC, "# WORK IN PROGRESS, for now it doesn't actually implement whole thing.\n",
+              "def _client_test_vectors(test_vector):\n    result = []\n    for (offset, size, specimen) in test_vector:\n"
+              "        result.append(TestVector(offset=offset, size=size, specimen=specimen))\n    return result\n\n\n"
+              "# WORK IN PROGRESS, for now it doesn't actually implement whole thing.\n")]),
+    M("http-adapter-helper-drops-must-not-exist-vector", SC,
+      "            client_test_vectors = [\n"
+      "                TestVector(offset=offset, size=size, specimen=specimen)\n"
+      "                for (offset, size, specimen) in test_vector\n            ]\n",
+      "            client_test_vectors = _client_test_vectors(test_vector)\n", "C12.16",
+      edits=[(SC, "# WORK IN PROGRESS, for now it doesn't actually implement whole thing.\n",
+              "def _client_test_vectors(test_vector):\n    result = []\n    for (offset, size, specimen) in test_vector:\n"
+              "        if not specimen:\n            continue\n"
+              "        result.append(TestVector(offset=offset, size=size, specimen=specimen))\n    return result\n\n\n"
+              "# WORK IN PROGRESS, for now it doesn't actually implement whole thing.\n")]),
+    # ---- C12.17 the wire between the adapter and the storage server
+    M("http-handler-size-from-specimen", HS,
+      "                            (d[\"offset\"], d[\"size\"], b\"eq\", d[\"specimen\"])\n",
+      "                            (d[\"offset\"], len(d[\"specimen\"]), b\"eq\", d[\"specimen\"])\n", "C12.17"),
+    M("http-handler-skips-empty-specimens", HS,
+      "                            for d in v[\"test\"]\n", "                            for d in v[\"test\"] if d[\"specimen\"]\n", "C12.17"),
+    M("http-client-sends-own-vectors-of-first-share", HC,
+      "                share_number: twv.asdict()\n",
+      "                share_number: TestWriteVectors(write_vectors=twv.write_vectors, new_length=twv.new_length).asdict()\n",
+      "C12.17"),
+    M("foolscap-server-object-drops-test-vectors", SRV,
+      "        return self._server.slot_testv_and_readv_and_writev(\n            storage_index,\n            secrets,\n"
+      "            test_and_write_vectors,\n",
+      "        return self._server.slot_testv_and_readv_and_writev(\n            storage_index,\n            secrets,\n"
+      "            {k: ([tv for tv in v[0] if tv[3]], v[1], v[2]) for (k, v) in test_and_write_vectors.items()},\n", "C12.17"),
+    M("benign-http-handler-vectors-by-statement-loop", HS,
+      "        try:\n            success, read_data = self._storage_server.slot_testv_and_readv_and_writev(\n"
+      "                storage_index,\n                secrets,\n                {\n                    k: (\n"
+      "                        [\n                            (d[\"offset\"], d[\"size\"], b\"eq\", d[\"specimen\"])\n"
+      "                            for d in v[\"test\"]\n                        ],\n"
+      "                        [(d[\"offset\"], d[\"data\"]) for d in v[\"write\"]],\n"
+      "                        v[\"new-length\"],\n                    )\n"
+      "                    for (k, v) in rtw_request[\"test-write-vectors\"].items()\n                },\n",
+      "        vectors = {}\n        for (shnum, per_share) in rtw_request[\"test-write-vectors\"].items():\n"
+      "            tests = [(tv[\"offset\"], tv[\"size\"], b\"eq\", tv[\"specimen\"]) for tv in per_share[\"test\"]]\n"
+      "            vectors[shnum] = (tests, [(d[\"offset\"], d[\"data\"]) for d in per_share[\"write\"]], per_share[\"new-length\"])\n"
+      "        try:\n            success, read_data = self._storage_server.slot_testv_and_readv_and_writev(\n"
+      "                storage_index,\n                secrets,\n                vectors,\n", None),
+    # ---- C12.18 what the server compares
+    M("server-testv-reads-specimen-length", MUT,
+      "                data = self._read_share_data(f, offset, length)\n",
+      "                data = self._read_share_data(f, offset, len(specimen))\n", "C12.18",
+      note="the C12-D slip made at the server: a (0, 1, b'') vector reads nothing and compares b'' == b''"),
+    M("server-testv-failure-forgotten", MUT,
+      "                    test_good = False\n                    break\n", "                    break\n", "C12.18"),
+    M("server-testv-compare-prefix-only", MUT, "    return a == b\n", "    return a.startswith(b)\n", "C12.18",
+      note="every share starts with b''"),
+    M("server-absent-share-compared-with-specimen", MUT,
+      "            data = b\"\"\n            if not testv_compare(data, operator, specimen):\n",
+      "            data = specimen[:length]\n            if not testv_compare(data, operator, specimen):\n", "C12.18"),
+    M("benign-check-testv-continue-after-failure", MUT,
+      "                    test_good = False\n                    break\n",
+      "                    test_good = False\n                    continue\n", None),
+    M("benign-empty-share-direct-returns", MUT,
+      "        test_good = True\n        for (offset, length, operator, specimen) in testv:\n            data = b\"\"\n"
+      "            if not testv_compare(data, operator, specimen):\n                test_good = False\n"
+      "                break\n        return test_good\n",
+      "        for tv in testv:\n            if not testv_compare(b\"\", tv[2], tv[3]):\n                return False\n"
+      "        return True\n", None),
     # ---- vanished anchor
     M("vanish-got-write-answer", PUB,
       "    def _got_write_answer(self, answer, writer, started):", "    def _got_write_answerX(self, answer, writer, started):",
